@@ -1,7 +1,7 @@
 """C09 — EDNS(0) OPT handling (static clauses)."""
 import re
 
-from qv.facts import callee_name, const_name, is_place, op_str
+from qv.facts import callee_name, const_name, const_int, is_place, op_str
 from qv.flow import slice_of
 from qv import paths, tables
 from qv.rulelib import HMWC, W, calls_in, one_call, callers, server_fns
@@ -59,13 +59,15 @@ def check(R, F):
         codes[int(m.group(1)) if m else val] = (g, b)
     ok1 = 1 in codes and any(re.match(r'^Name::is_root\(.*\) in \[0\]$', x) for x in codes[1][0])
     R.require(ok1, 'validate-opt', 'server::validate_opt|owner-not-root->FORMERR', vo.where(codes[1][1]) if 1 in codes else vo.where(), 'non-root owner -> ExtendedRcode::FORMERR', 'validate_opt: no Some(ExtendedRcode 1) arm under !owner.is_root(); rows %s' % [(r[0], r[1]) for r in rows])
-    ok16 = 16 in codes and any(re.match(r'^Ne\(.*,0_u8\) not in \[0\]$', x) for x in codes[16][0])
+    # "version != 0": the version is bits 16..23 of the raw TTL field, extracted as (ttl >> 16) as u8 or masked with 0x00ff0000
+    VER = r'^Ne\((cast\(Shr\(.*,16_\w+\)\),0_u8|BitAnd\(.*,16711680_u32\),0_u32)\) not in \[0\]$'
+    ok16 = 16 in codes and any(re.match(VER, x) for x in codes[16][0])
     R.require(ok16, 'validate-opt', 'server::validate_opt|version-nonzero->BADVERS', vo.where(codes[16][1]) if 16 in codes else vo.where(), 'version != 0 -> BADVERS(16)', 'validate_opt: no Some(ExtendedRcode 16) arm under version != 0; rows %s' % [(r[0], r[1]) for r in rows])
     R.require(set(codes) == {1, 16}, 'validate-opt', 'server::validate_opt|only-two-errors', vo.where(), 'exactly FORMERR and BADVERS', 'validate_opt returns codes %s, expected exactly {1, 16}' % sorted(map(str, codes)))
     # version is bits 16..23 of the TTL field: (x >> 16) as u8
     if 16 in codes:
-        edge = [x for x in codes[16][0] if x.startswith('Ne(')][0]
-        R.require(re.match(r'^Ne\(cast\(Shr\(.*,16_i32\)\),0_u8\)', edge) is not None, 'validate-opt', 'server::validate_opt|version-bits', vo.where(), 'version = (ttl field >> 16) as u8', 'EDNS version is not extracted as (ttl >> 16) as u8: %s' % edge)
+        edge = ([x for x in codes[16][0] if re.match(VER, x)] or [x for x in codes[16][0] if x.startswith('Ne(')] or ['?'])[0]
+        R.require(re.match(VER, edge) is not None, 'validate-opt', 'server::validate_opt|version-bits', vo.where(), 'version = (ttl field >> 16) as u8', 'EDNS version is not extracted as (ttl >> 16) as u8: %s' % edge)
     # caller: set_extended_rcode(code) then return (no further response mutation)
     from qv.rulelib import mutates_response
     for b, t in calls_in(hm, W + 'set_extended_rcode'):
@@ -81,7 +83,7 @@ def check(R, F):
     ver_ops = []
     for b, blk in enumerate(vo.blocks):
         for st in blk['stmts']:
-            if st['k'] == 'assign' and st['rv']['k'] == 'bin' and st['rv']['op'] == 'Shr':
+            if st['k'] == 'assign' and st['rv']['k'] == 'bin' and (st['rv']['op'] == 'Shr' or (st['rv']['op'] == 'BitAnd' and const_int(st['rv']['b']) == 0x00ff0000)):
                 ver_ops.append((b, st['rv']['a']))
     R.require(len(ver_ops) >= 1, 'opt-ttl-raw', 'server::validate_opt|version-source', vo.where(), 'version shift found', 'cannot find the version extraction in validate_opt')
     for b, o in ver_ops:
